@@ -297,3 +297,72 @@ theorem indexFetch_perm_eval (fields : List String) (cand : List V → Bool) (f 
     refine ⟨⟨d.k, (hidmem d.k).mpr ⟨d, hd, rfl, hcomplete d hd hs⟩, find_of_mem_nodup docs hn d hd⟩, hs⟩
 
 end Defra.IndexMulti
+
+namespace Defra.IndexMulti
+open Defra Defra.Query
+
+/-! ### candidate completeness for the two look-ups the planner uses most -/
+
+theorem mem_dedupV : ∀ (l : List V) (x : V), x ∈ dedupV l ↔ x ∈ l
+  | [], x => by simp [dedupV]
+  | y :: ys, x => by
+    unfold dedupV
+    have ih := mem_dedupV ys
+    split
+    · rename_i hc
+      have hy : y ∈ dedupV ys := by simpa using hc
+      rw [ih x, List.mem_cons]
+      constructor
+      · exact Or.inr
+      · rintro (rfl | h)
+        · exact (ih _).mp hy
+        · exact h
+    · rw [List.mem_cons, List.mem_cons, ih x]
+
+theorem key_with_head (d : MDoc) (f0 : String) (rest : List String) (x : V) (hx : x ∈ fieldVals d f0) :
+    ∃ key ∈ keysOf d (f0 :: rest), key.headD .null = x := by
+  cases hk : keysOf d rest with
+  | nil => exact absurd hk (keysOf_ne_nil d rest)
+  | cons k ks =>
+    refine ⟨x :: k, ?_, rfl⟩
+    unfold keysOf
+    rw [List.mem_flatMap]
+    exact ⟨x, hx, by rw [hk]; simp⟩
+
+/-- equality on the leading scalar field of an index: the prefix look-up under the condition value misses no
+    matching document -/
+theorem leading_eq_complete (f0 : String) (rest : List String) (v : V) (conj : List Atom)
+    (hin : Atom.sc f0 .eq [v] ∈ conj) (hsc : isArrayField f0 = false) (d : MDoc)
+    (hs : satisfies [conj] d = true) :
+    ∃ key ∈ keysOf d (f0 :: rest), vEq v (key.headD .null) = true := by
+  unfold satisfies at hs
+  simp only [List.any_cons, List.any_nil, Bool.or_false, List.all_eq_true] at hs
+  have ha := hs _ hin
+  simp only [Atom.holds, cmp, List.headD_cons] at ha
+  have hfv : d.scalar f0 ∈ fieldVals d f0 := by unfold fieldVals; simp [hsc]
+  obtain ⟨key, hk, hh⟩ := key_with_head d f0 rest _ hfv
+  exact ⟨key, hk, by rw [hh]; exact ha⟩
+
+/-- `_any: {_eq: v}` on the leading array field: the prefix look-up under `v` misses no matching document -/
+theorem leading_any_eq_complete (f0 : String) (rest : List String) (v : V) (conj : List Atom)
+    (hin : Atom.arr f0 .any .eq [v] ∈ conj) (harr : isArrayField f0 = true) (d : MDoc)
+    (hs : satisfies [conj] d = true) :
+    ∃ key ∈ keysOf d (f0 :: rest), vEq v (key.headD .null) = true := by
+  unfold satisfies at hs
+  simp only [List.any_cons, List.any_nil, Bool.or_false, List.all_eq_true] at hs
+  have ha := hs _ hin
+  simp only [Atom.holds] at ha
+  cases hl : d.array f0 with
+  | none => simp [hl] at ha
+  | some l =>
+    simp only [hl, List.any_eq_true, cmp, List.headD_cons] at ha
+    obtain ⟨e, he, hve⟩ := ha
+    have hne : l.isEmpty = false := by cases l with | nil => cases he | cons _ _ => rfl
+    have hfv : e ∈ fieldVals d f0 := by
+      unfold fieldVals
+      simp only [harr, if_true, hl, hne, Bool.false_eq_true, if_false]
+      exact (mem_dedupV l e).mpr he
+    obtain ⟨key, hk, hh⟩ := key_with_head d f0 rest e hfv
+    exact ⟨key, hk, by rw [hh]; exact hve⟩
+
+end Defra.IndexMulti
